@@ -3,6 +3,7 @@ package main
 // Symbolic executor over go/ssa: block/instruction interpreter.
 
 import (
+	"os"
 	"fmt"
 	"go/constant"
 	"go/token"
@@ -13,10 +14,13 @@ import (
 )
 
 type Outcome struct {
-	st    *State
-	ret   Val
-	panic bool
-	pval  Val
+	st       *State
+	ret      Val
+	panic    bool
+	pval     Val
+	stopped  bool // reached the frame's stopAt block (region merging)
+	stopFrom *ssa.BasicBlock
+	stopEnv  map[ssa.Value]Val
 }
 
 const maxSteps = 400000
@@ -30,8 +34,17 @@ func (x *Run) runFunc(fn *ssa.Function, args []Val, bindings []Val, st *State, p
 	return x.runFrame(fr, args, bindings, st)
 }
 
+var traceOn = os.Getenv("GOVC_TRACE") != ""
+
 func (x *Run) runFrame(fr *Frame, args []Val, bindings []Val, st *State) []Outcome {
 	fn := fr.fn
+	if traceOn {
+		sz := 0
+		for _, c := range st.pc {
+			sz += len(c)
+		}
+		fmt.Fprintf(os.Stderr, "%*s> %s mode=%d pc=%d/%dB heap=%d\n", fr.depth*2, "", x.fnShort(fn), fr.mode, len(st.pc), sz, len(st.heap))
+	}
 	if len(fn.Blocks) == 0 {
 		x.unsupported("no body: "+fn.String(), fn.Pos())
 		return nil
@@ -142,6 +155,9 @@ func (x *Run) enterBlock(fr *Frame, from, to *ssa.BasicBlock, st *State) []Outco
 	if st.dead {
 		return nil
 	}
+	if fr.stopAt != nil && to == fr.stopAt {
+		return []Outcome{{st: st, stopped: true, stopFrom: from, stopEnv: fr.env}}
+	}
 	fr.prev = from
 	li := x.loops(fr.fn)
 	if lp := li.byHeader[to]; lp != nil {
@@ -228,6 +244,9 @@ func (x *Run) runBlock(fr *Frame, b *ssa.BasicBlock, idx int, st *State) []Outco
 			}
 			if c.T == "false" {
 				return append(outs, x.enterBlock(fr, b, b.Succs[1], st)...)
+			}
+			if mo, ok := x.tryMerge(fr, st, b, ins, c); ok {
+				return append(outs, mo...)
 			}
 			if !x.newPath() {
 				return outs
@@ -435,6 +454,9 @@ func (x *Run) exec(fr *Frame, st *State, instr ssa.Instruction, outs *[]Outcome)
 		x.checkValGuard(fr, st, m, true, ins)
 		x.mayPanic(fr, st, not(eq(m.T, "0")), "nilmap", ins, outs)
 		x.mapSet(st, m, k.T, v)
+		if m.Origin != "" && !fr.inPure() {
+			st.events = append(st.events, Event{Name: "mapset:" + m.Origin, Args: []Val{m, k, v}})
+		}
 	case *ssa.MakeMap:
 		fr.env[ins] = x.makeMap(st, ins.Type())
 	case *ssa.MakeSlice:
@@ -569,18 +591,15 @@ func (x *Run) fieldAddr(fr *Frame, st *State, a *Addr, field int, ptrTy types.Ty
 		ft := stt.Field(field).Type()
 		guard := a.Guard
 		if g := x.spec.guardOf(a.Ty, field); g >= 0 && !a.Fresh {
-			guard = x.lockKey(&Addr{Kind: AObj, Ref: x.subObjRef(a.Ref, a.Ty, g), Ty: stt.Field(g).Type()})
+			guard = x.lockKey(&Addr{Kind: AField, Ref: a.Ref, Ty: a.Ty, Field: g})
 		}
-		if isStruct(ft) {
-			na = &Addr{Kind: AObj, Ref: x.subObjRef(a.Ref, a.Ty, field), Ty: ft, Guard: guard, Fresh: a.Fresh, owner: a, ownerField: field}
-		} else {
-			na = &Addr{Kind: AField, Ref: a.Ref, Ty: a.Ty, Field: field, Guard: guard, Fresh: a.Fresh}
-		}
-	case ACell, AArrCell, AGlobal, AElem:
+		_ = ft
+		na = &Addr{Kind: AField, Ref: a.Ref, Ty: a.Ty, Field: field, Guard: guard, Fresh: a.Fresh}
+	case ACell, AArrCell, AGlobal, AElem, AField:
 		c := *a
 		c.Sel = append(append([]int(nil), a.Sel...), field)
 		na = &c
-	case APtr, AField:
+	case APtr:
 		// pointer to struct reached through an opaque pointer
 		c := *a
 		na = &c
@@ -637,7 +656,7 @@ func (x *Run) execUnOp(fr *Frame, st *State, ins *ssa.UnOp, outs *[]Outcome) {
 
 // checkDeref: nil-dereference obligation for nullable values.
 func (x *Run) checkDeref(fr *Frame, st *State, v Val, site ssa.Instruction, outs *[]Outcome) {
-	if v.Addr != nil && (v.Addr.Kind == ACell || v.Addr.Kind == AArrCell || v.Addr.Kind == AGlobal || v.Addr.Kind == AElem || v.Addr.Fresh) {
+	if v.Addr != nil && (v.Addr.Kind == ACell || v.Addr.Kind == AArrCell || v.Addr.Kind == AGlobal || v.Addr.Kind == AElem || v.Addr.Kind == AField || v.Addr.Fresh) {
 		return
 	}
 	if v.MaybeNil {
